@@ -310,12 +310,15 @@ def run(ctx):
         base = m.lookup_method(BP, name)
         if base is None:
             continue
-        calls_base = any(
-            isinstance(n, ast.Call) and m.resolve(meth.module, n.func)
-            == base.qualname for n in walk_shallow(meth.node))
+        def to_base(call):
+            # Base.m(self, ...) or super().m(...), by resolved callee
+            return any(c.kind == "repo" and c.fn is base
+                       for c in P.resolve_call(meth, call))
+        calls_base = any(isinstance(n, ast.Call) and to_base(n)
+                         for n in walk_shallow(meth.node))
         last = meth.node.body[-1]
         tail = isinstance(last, ast.Expr) and isinstance(last.value, ast.Call) \
-            and m.resolve(meth.module, last.value.func) == base.qualname
+            and to_base(last.value)
         run.check(calls_base and tail, "C10.R8", meth.qualname,
                   "delegates to " + base.qualname,
                   "ends with a call of the base implementation",
